@@ -19,6 +19,8 @@ type Explorer struct {
 	// Bound per kind: maximal total cost of deviations of that kind in one
 	// execution.  A kind that is absent is unbounded.
 	Bound map[string]int
+	// TotalBound (>0): maximal total cost over all bounded kinds in one execution.
+	TotalBound int
 	// MaxExec caps the number of executions (0 = none); hitting it is reported.
 	MaxExec int64
 	// Body runs one execution of the code under test (inside vrt.Run when the
@@ -26,8 +28,15 @@ type Explorer struct {
 	Body func() any
 	// Check is called after every complete execution.
 	Check func(x *Execution)
+	// Runner, when set, replaces the in-process execution: it runs one execution
+	// replaying prefix elsewhere (the instrumented command-line binary as a
+	// child process) and returns its record.
+	Runner func(prefix []vrt.Point) *Execution
 
 	Ctx *Ctx
+	// NoCount: do not count executions / choice-tree nodes into Ctx (the
+	// explicit-state search counts canonical states and transitions itself).
+	NoCount bool
 
 	Executions int64
 	Nodes      int64
@@ -58,6 +67,9 @@ func RenderPoints(ps []vrt.Point) string {
 
 // RunOnce executes body once replaying prefix.
 func (e *Explorer) RunOnce(prefix []vrt.Point) *Execution {
+	if e.Runner != nil {
+		return e.Runner(prefix)
+	}
 	x := &Execution{}
 	vrt.Begin(prefix, e.Opts)
 	func() {
@@ -87,6 +99,14 @@ func (e *Explorer) Explore() bool {
 	return !e.Capped
 }
 
+// ExploreFrom explores the subtree below a given choice prefix (used by the
+// explicit-state search: the prefix holds the environment answers of the
+// history that reaches a state, the subtree the answers of one more operation).
+func (e *Explorer) ExploreFrom(prefix []vrt.Point) bool {
+	e.explore(prefix)
+	return !e.Capped
+}
+
 // Stop ends the search early (e.g. after a violation).
 func (e *Explorer) Stop() { e.stop = true }
 
@@ -104,7 +124,7 @@ func (e *Explorer) explore(prefix []vrt.Point) {
 	}
 	x := e.RunOnce(prefix)
 	e.Executions++
-	if e.Ctx != nil {
+	if e.Ctx != nil && !e.NoCount {
 		e.Ctx.Eval()
 		e.Ctx.Transition(int64(len(x.Exec.Points) - len(prefix)))
 		e.Ctx.State(int64(len(x.Exec.Points) - len(prefix) + 1))
@@ -127,11 +147,13 @@ func (e *Explorer) explore(prefix []vrt.Point) {
 	e.Check(x)
 	pts := x.Exec.Points
 	spent := map[string]int{}
+	total := 0
 	for i := 0; i < len(pts); i++ {
 		p := pts[i]
 		if i >= len(prefix) {
 			b, bounded := e.Bound[p.Kind]
-			if !bounded || spent[p.Kind]+p.Cost <= b || p.Cost == 0 {
+			within := !bounded || p.Cost == 0 || (spent[p.Kind]+p.Cost <= b && (e.TotalBound <= 0 || total+p.Cost <= e.TotalBound))
+			if within {
 				for alt := 1; alt < p.N; alt++ {
 					np := make([]vrt.Point, i+1)
 					copy(np, pts[:i])
@@ -145,6 +167,9 @@ func (e *Explorer) explore(prefix []vrt.Point) {
 		}
 		if p.Chosen != 0 {
 			spent[p.Kind] += p.Cost
+			if _, bounded := e.Bound[p.Kind]; bounded {
+				total += p.Cost
+			}
 		}
 	}
 }
